@@ -39,6 +39,10 @@ type c08Case struct {
 	// Resumed: the subscriber's session was created by a client of the OTHER protocol version and is resumed (no
 	// clean start) by the connection under test - what is forwarded follows the version of the current connection
 	Resumed bool `json:"resumed,omitempty"`
+	// Kept (live kind, with Resumed, subscriber 3.1.1): the FIRST subscription is not made by the subscriber's connection
+	// but was made - with Subscription Identifier 9 - by the earlier MQTT 5 connection of the session, and is kept: what
+	// it is sent arrives without an identifier (3.1.1 cannot carry one), but arrives
+	Kept bool `json:"kept,omitempty"`
 	// Empty (live, with RETAIN): the payload has length zero - the publish that clears the topic's retained message
 	// is still a publish: it is forwarded like any other
 	Empty bool `json:"empty,omitempty"`
@@ -88,6 +92,7 @@ func (p *c08Prop) Gen(r *Rng, i int, tier string) interface{} {
 	c.Overlap = r.Chance(40)
 	c.Self = r.Chance(30)
 	c.Resumed = r.Chance(15)
+	c.Kept = c.Resumed && r.Chance(50)
 	c.Empty = c.PR && r.Chance(30)
 	c.AliasPub = c.PV == 5 && r.Chance(35)
 	n := 1 + r.Intn(3)
@@ -192,6 +197,15 @@ func (p *c08Prop) Run(ci interface{}) interface{} {
 		if !oa.WaitFor(5*time.Second, func() bool { return len(oa.Others) >= 1 }) {
 			obs.Err = "S (earlier connection): no suback"
 			return obs
+		}
+		if c.Kept && other == mqttp.ProtocolV50 && c.Kind == "live" && len(c.Resub) == 0 {
+			k := mkSubscribe(other, 2, []string{c08Filters[c.Subs[0].F]}, []byte{byte(c.Subs[0].QoS) | 0x20})
+			_ = k.PropertySet(mqttp.PropertySubscriptionIdentifier, uint32(9))
+			_ = oa.SendL(k)
+			if !oa.WaitFor(5*time.Second, func() bool { return len(oa.Others) >= 2 }) {
+				obs.Err = "S (earlier connection): no suback for the kept subscription"
+				return obs
+			}
 		}
 		before := b.Met.Disconnected()
 		oc.Close()
@@ -327,7 +341,10 @@ func (p *c08Prop) Run(ci interface{}) interface{} {
 			return obs
 		}
 	} else {
-		for _, x := range append(append([]c08Sub{}, c.Subs...), c.Resub...) {
+		for i, x := range append(append([]c08Sub{}, c.Subs...), c.Resub...) {
+			if i == 0 && c.Kept && c.Resumed && sv != mqttp.ProtocolV50 && len(c.Resub) == 0 {
+				continue // made by the earlier connection
+			}
 			if !subscribe(c08Filters[x.F], opsOf(x), x.ID) {
 				obs.Err = "no suback"
 				return obs
